@@ -289,3 +289,49 @@ func vExternalV2Eq(a, b externalBufYAMLFileV2) bool {
 	}
 	return true
 }
+
+// VerifLemma_C16B_Plugins: check plugins of a v2 buf.yaml (local plugins; a remote reference needs os.Stat) keep
+// their order, names, args and options through write+read.
+func VerifLemma_C16B_Plugins() {
+	n := verifParam("N")
+	ext := externalBufYAMLFileV2{Version: "v2"}
+	nPlugins := 1 + verifNondetChoice(2)
+	for i := 0; i < nPlugins; i++ {
+		name := []string{"buf-plugin-a", "plugin-b.wasm"}[verifNondetChoice(2)]
+		var p externalBufYAMLFilePluginV2
+		switch verifNondetChoice(3) {
+		case 0:
+			p.Plugin = name
+		case 1:
+			p.Plugin = []any{name}
+		case 2:
+			p.Plugin = []any{name, vCompPrintable(n), "--flag"}
+		}
+		if verifNondetBool() {
+			p.Options = map[string]any{"opt": vCompPrintable(n), "on": verifNondetBool()}
+		}
+		ext.Plugins = append(ext.Plugins, p)
+	}
+	doc0, err := encoding.MarshalYAML(&ext)
+	verifAssume(err == nil)
+	f1, err := readBufYAMLFile(doc0, nil, false)
+	verifAssume(err == nil)
+	verifCover("document accepted")
+	f2, err := readBufYAMLFile(vWriteV(f1), nil, false)
+	verifAssert(err == nil, "the written buf.yaml with plugins is accepted")
+	p1, p2 := f1.PluginConfigs(), f2.PluginConfigs()
+	verifAssert(len(p1) == nPlugins && len(p2) == nPlugins, "all plugins kept")
+	for i := range p1 {
+		verifAssert(p1[i].Name() == p2[i].Name() && p1[i].Type() == p2[i].Type(), "plugin name and kind preserved, in order")
+		verifAssert(vStrsEq(p1[i].Args(), p2[i].Args()), "plugin args preserved")
+		o1, o2 := p1[i].Options(), p2[i].Options()
+		verifAssert(len(o1) == len(o2), "plugin options preserved (count)")
+		if len(o1) > 0 {
+			s1, ok1 := o1["opt"].(string)
+			s2, ok2 := o2["opt"].(string)
+			b1, ok3 := o1["on"].(bool)
+			b2, ok4 := o2["on"].(bool)
+			verifAssert(ok1 && ok2 && ok3 && ok4 && s1 == s2 && b1 == b2, "plugin option values preserved")
+		}
+	}
+}
